@@ -155,6 +155,88 @@ pub fn run(seed: u64, workers: usize, hogs: usize, rounds: usize, ops: usize, li
     v
 }
 
+/// Contended admission: `n` writers are released together by a barrier, each writing `size` bytes to its own
+/// file, with less headroom than the sum of the writes.  DiskMgr.tla (w_add / w_check / rollback) proves that the
+/// committed bytes never exceed the limit in force; which of the writers win is not specified.  Asserted at the
+/// quiescent point after every round: used_disk_space() = sum of size() of the live files = bytes on disk <= limit.
+pub fn contended(seed: u64, n: usize, size: u64, limit: u64, rounds: usize, st: &[AtomicU64; 3]) -> Vec<String> {
+    let dm: Arc<DiskManager> = Arc::new(DiskManagerBuilder::default().with_max_temp_directory_size(limit).build().expect("disk manager"));
+    let msgs = Arc::new(Mutex::new(vec![]));
+    let sizes: Arc<Vec<AtomicU64>> = Arc::new((0..n).map(|_| AtomicU64::new(0)).collect());
+    let disk: Arc<Vec<AtomicU64>> = Arc::new((0..n).map(|_| AtomicU64::new(0)).collect());
+    let nfiles: Arc<Vec<AtomicU64>> = Arc::new((0..n).map(|_| AtomicU64::new(0)).collect());
+    let barrier = Arc::new(Barrier::new(n + 1));
+    std::thread::scope(|s| {
+        for w in 0..n {
+            let (dm, msgs, sizes, disk, nfiles, barrier) = (dm.clone(), msgs.clone(), sizes.clone(), disk.clone(), nfiles.clone(), barrier.clone());
+            s.spawn(move || {
+                let mut rng = StdRng::seed_from_u64(seed * 9001 + w as u64);
+                let mut files: Vec<(Arc<dyn SpillFile>, u64)> = vec![];
+                let buf = vec![b'c'; size as usize];
+                for _ in 0..rounds {
+                    let f = dm.create_tmp_file("verif C21 contended").expect("create");
+                    let mut wr = f.open_writer().expect("writer");
+                    let chunks = if rng.random_bool(0.5) { 1 } else { 2 };
+                    barrier.wait(); // ---- released together
+                    let mut ok = 0u64;
+                    for c in 0..chunks {
+                        let (lo, hi) = (size as usize * c / chunks, size as usize * (c + 1) / chunks);
+                        st[0].fetch_add(1, Ordering::Relaxed);
+                        match wr.write_all(&buf[lo..hi]) {
+                            Ok(()) => ok += (hi - lo) as u64,
+                            Err(e) => {
+                                st[1].fetch_add(1, Ordering::Relaxed);
+                                if !e.to_string().contains("exceeded the allowable limit") {
+                                    bad(&msgs, format!("writer {w}: {e}"));
+                                }
+                            }
+                        }
+                    }
+                    drop(wr);
+                    if f.size() != Some(ok) {
+                        bad(&msgs, format!("writer {w}: size()={:?} but {ok} bytes were admitted", f.size()));
+                    }
+                    files.push((f, ok));
+                    sizes[w].store(files.iter().map(|(f, _)| f.size().unwrap_or(0)).sum(), Ordering::SeqCst);
+                    disk[w].store(files.iter().map(|(f, _)| f.path().and_then(|p| std::fs::metadata(p).ok()).map(|m| m.len()).unwrap_or(0)).sum(), Ordering::SeqCst);
+                    nfiles[w].store(files.len() as u64, Ordering::SeqCst);
+                    barrier.wait(); // ---- quiescent point (coordinator checks)
+                    barrier.wait();
+                    // release some files so that the headroom varies from round to round
+                    files.retain(|_| rng.random_bool(0.35));
+                }
+            });
+        }
+        for round in 0..rounds {
+            barrier.wait();
+            barrier.wait();
+            st[2].fetch_add(1, Ordering::Relaxed);
+            let total: u64 = sizes.iter().map(|x| x.load(Ordering::SeqCst)).sum();
+            let on_disk: u64 = disk.iter().map(|x| x.load(Ordering::SeqCst)).sum();
+            let nf: u64 = nfiles.iter().map(|x| x.load(Ordering::SeqCst)).sum();
+            let used = dm.used_disk_space();
+            if used != total {
+                bad(&msgs, format!("round {round}: used_disk_space()={used} but the live files report {total} bytes"));
+            }
+            if total > limit || used > limit {
+                bad(&msgs, format!("round {round}: {n} writers of {size} bytes released together: committed {total} bytes (used_disk_space()={used}) exceed the limit {limit}"));
+            }
+            if on_disk > limit || on_disk != total {
+                bad(&msgs, format!("round {round}: {on_disk} bytes on disk, size() total {total}, limit {limit}"));
+            }
+            if dm.spilling_progress().active_files_count as u64 != nf {
+                bad(&msgs, format!("round {round}: active_files_count={} with {nf} live files", dm.spilling_progress().active_files_count));
+            }
+            barrier.wait();
+        }
+    });
+    if dm.used_disk_space() != 0 || dm.spilling_progress().active_files_count != 0 {
+        bad(&msgs, format!("after every file was released used_disk_space()={}", dm.used_disk_space()));
+    }
+    let v = msgs.lock().clone();
+    v
+}
+
 pub fn main_threads(seed: u64, quick: bool) -> Value {
     let st: [AtomicU64; 4] = [AtomicU64::new(0), AtomicU64::new(0), AtomicU64::new(0), AtomicU64::new(0)];
     let mut violations = vec![];
@@ -166,7 +248,18 @@ pub fn main_threads(seed: u64, quick: bool) -> Value {
             violations.push(json!({"kind": "threads", "violation": {"case": {"workers": w, "hogs": h, "limit": limit, "seed": seed * 100 + i as u64}, "message": m.join(" ;; ")}, "case_index": i, "harness_seed": seed}));
         }
     }
-    json!({"evaluations": cfgs.len(), "violations": violations, "worker_ops": st[0].load(Ordering::Relaxed),
+    // contended admission: writers released together whose combined writes exceed the headroom
+    let cst: [AtomicU64; 3] = [AtomicU64::new(0), AtomicU64::new(0), AtomicU64::new(0)];
+    let ccfgs: [(usize, u64, u64); 7] = [(4, 1 << 20, 3 << 19), (2, 600, 1000), (3, 4096, 4097), (6, 10_000, 25_000), (8, 100, 150), (5, 70_000, 200_000), (2, 1, 1)];
+    let crounds = if quick { 40 } else { 400 };
+    for (i, (n, size, limit)) in ccfgs.iter().enumerate() {
+        let m = contended(seed * 1000 + i as u64, *n, *size, *limit, crounds, &cst);
+        if !m.is_empty() {
+            violations.push(json!({"kind": "threads", "violation": {"case": {"contended_writers": n, "size": size, "limit": limit, "rounds": crounds, "seed": seed * 1000 + i as u64}, "message": m.join(" ;; ")}, "case_index": 100 + i, "harness_seed": seed}));
+        }
+    }
+    json!({"evaluations": cfgs.len() + ccfgs.len(), "violations": violations, "worker_ops": st[0].load(Ordering::Relaxed),
+           "contended": {"configs": ccfgs.len(), "rounds_each": crounds, "writes": cst[0].load(Ordering::Relaxed), "writes_rejected": cst[1].load(Ordering::Relaxed), "quiescent_points": cst[2].load(Ordering::Relaxed)},
            "fitting_writes_rejected_while_bytes_in_flight(allowed_by_design)": st[1].load(Ordering::Relaxed),
            "hog_writes_all_rejected": st[2].load(Ordering::Relaxed), "observer_samples": st[3].load(Ordering::Relaxed),
            "known": [], "tool_errors": [], "samples": []})
